@@ -668,6 +668,102 @@ def run_item(args):
     return out
 
 
+# ------------------------------------------------------------------ one algorithm object, two datasets
+def two_calls_item(args):
+    """(cfg, lvA, lvB, names, first, checks): ONE algorithm object aggregates dataset A, then dataset B; afterwards the checks
+    are applied to both results (in the order given by `first`): state kept by the algorithm object between calls, or stores
+    shared by the results of one object, show here and in no single call"""
+    cfg, lvA, lvB, names, first, checks = args
+    install()
+    out = []
+    dsA, dsB = shapes.build(lvA, names), shapes.build(lvB, names)
+    B, T = fork.scheme_vars()
+    sc = fork.make_scheme(B, T)
+    ex = fork.Explorer(fork.valid_scheme(B, T), max_paths=int(2e5))
+    table = {"accepts": chk_accepts, "wellformed": chk_wellformed, "reported": chk_reported, "localopt": chk_localopt,
+             "starts": chk_starts, "optimal": chk_optimal, "flag": chk_flag_truthful}
+
+    def path(ctx):
+        log = []
+        alg, _ = make_config(cfg, log)
+        oA = observe(ctx, cfg, lvA, names, True, B, T, sc, dsA, alg=alg)
+        nA = len(log)
+        oA.log = log[:nA]
+        oB = observe(ctx, cfg, lvB, names, True, B, T, sc, dsB, alg=alg)
+        oB.log = log[nA:]
+        for o, which in ((oA, "first"), (oB, "second")) if first == "A" else ((oB, "second"), (oA, "first")):
+            k = len(out)
+            chk_crash(o, out)
+            for c in checks:
+                if len(out) == k:
+                    (table[c] if isinstance(c, str) else c)(o, out)
+            for pl in out[k:]:
+                pl["two_calls"] = {"A": shapes.raw_json(lvA, names), "B": shapes.raw_json(lvB, names), "read_first": first, "failing": which}
+                pl["what"] = f"{cfg}: one algorithm object on two datasets (checked afterwards, {first} first), the {which} result: " + pl["what"]
+                pl["signature"] = dict(pl["signature"], history="two calls")
+            if len(out) > k:
+                return
+    ex.explore(path)
+    STATS.sample({"config": cfg, "one algorithm object on": [shapes.raw_json(lvA, names), shapes.raw_json(lvB, names)], "checked": first + " first",
+                  "scheme": "12 symbolic reals"})
+    return out
+
+
+def two_calls_items(run, cfgs, checks, per_cfg=2):
+    import random
+    rnd = random.Random(run.seed + 29)
+    pool = dataset_pool(3, 2)
+    tc = []
+    for cfg in cfgs:
+        for i in range(per_cfg if cfg not in HEAVY else 1):
+            a, b = rnd.choice(pool), rnd.choice(pool)
+            tc.append((cfg, a, b, NAMINGS[3][i % 3], "AB"[i % 2], checks))
+        # directed: a strict order first, then a dataset whose consensus has ties / another order
+        tc.append((cfg, ((0, 1, 2), (0, 1, 2)), ((2, 1, 0), (0, 0, 1)), [1, 2, 3], "B", checks))
+    run.bounds["one algorithm object on two datasets, results checked afterwards"] = len(tc)
+    return tc
+
+
+def replay_two_calls(p, judge):
+    """concrete counterpart: judge(cons, exc, rankings_json, scheme) -> (violates, detail) for the result named in the payload"""
+    from corankco.dataset import Dataset
+    from corankco.scoringscheme import ScoringScheme
+    install()
+    tc = p["two_calls"]
+    sc = ScoringScheme([[float(x) for x in v] for v in p["scheme"]])
+    standins.PINNED[:] = [c[1] for c in p.get("choices", [])]
+    alg, _ = make_config(p["config"], [])
+    if p["config"] in ("ExactPulp", "Exact(opt,nocplex)", "Exact(noopt,nocplex)", "ParCons(nocplex)", "ParCons(2,Borda,nocplex)"):
+        standins.uninstall_pulp()
+    res = {}
+    for k in ("A", "B"):
+        try:
+            res[k] = (alg.compute_consensus_rankings(Dataset.from_raw_list(shapes.from_json(tc[k])), sc, True), None)
+        except Exception as e:  # noqa
+            res[k] = (None, e)
+    for k in (("A", "B") if tc["read_first"] == "A" else ("B", "A")):
+        bad, detail = judge(res[k][0], res[k][1], tc[k], sc)
+        if bad:
+            return True, f"result for dataset {k}: {detail}"
+    return False, "both results satisfy the property after both calls"
+
+
+def judge_wellformed(cons, exc, rj, sc):
+    from corankco.element import Element
+    if exc is not None:
+        return type(exc).__name__ not in REFUSALS, f"raised {type(exc).__name__}: {exc}"
+    names = sorted({x for r in rj for b in r for x in b}, key=str)
+    uni = {(type(x), x) for x in names}
+    rks = cons.consensus_rankings
+    if len(rks) != 1:
+        return True, f"{len(rks)} rankings returned"
+    for r in rks:
+        seen = [(el.type, el.value) if isinstance(el, Element) else ("?", el) for b in r for el in b]
+        if any(len(b) == 0 for b in r) or len(seen) != len(set(seen)) or set(seen) != uni:
+            return True, f"ill-formed consensus {r} for universe {names}"
+    return False, "well-formed"
+
+
 # ------------------------------------------------------------------ conformance of the compiled kernels (JIT on)
 WRITINGS = {"ints (unifying)": [[0, 1, 1, 0, 1, 1], [1, 1, 0, 1, 1, 0]], "ints (2 x unifying)": [[0, 2, 2, 0, 2, 2], [2, 2, 0, 2, 2, 0]],
             "ints (induced measure)": [[0, 1, 1, 0, 0, 0], [1, 1, 0, 0, 0, 0]], "ints and floats mixed": [[0, 1.0, 1, 0, 1, 1], [1, 1, 0, 1.0, 1, 0]],
